@@ -2117,13 +2117,13 @@ class subarray : public const_subarray<T, D, ElementPtr, Layout> {
 
 	constexpr auto operator=(const_subarray<T, D, ElementPtr, Layout> const& other) & -> subarray& {
 		if(this == std::addressof(other)) { return *this; }
-		BOOST_MULTI_ASSERT(this->extension() == other.extension());
+		BOOST_MULTI_ASSERT(this->extensions() == other.extensions());
 		this->elements() = other.elements();
 		return *this;
 	}
 
 	constexpr void swap(subarray&& other) && noexcept {
-		BOOST_MULTI_ASSERT(this->extension() == other.extension());
+		BOOST_MULTI_ASSERT(this->extensions() == other.extensions());
 		adl_swap_ranges(this->elements().begin(), this->elements().end(), std::move(other).elements().begin());
 	}
 	friend constexpr void swap(subarray&& self, subarray&& other) noexcept { std::move(self).swap(std::move(other)); }
@@ -2195,7 +2195,7 @@ class subarray : public const_subarray<T, D, ElementPtr, Layout> {
 	template<class TT, class... As>
 	constexpr
 	auto operator=(const_subarray<TT, D, As...> const& other) && -> subarray& {
-		BOOST_MULTI_ASSERT(this->extension() == other.extension());  // NOLINT(cppcoreguidelines-pro-bounds-array-to-pointer-decay,hicpp-no-array-decay) : normal in a constexpr function
+		BOOST_MULTI_ASSERT(this->extensions() == other.extensions());  // NOLINT(cppcoreguidelines-pro-bounds-array-to-pointer-decay,hicpp-no-array-decay) : normal in a constexpr function
 		this->elements() = other.elements();
 		return *this;
 	}
@@ -2203,7 +2203,7 @@ class subarray : public const_subarray<T, D, ElementPtr, Layout> {
 	template<class TT, class... As>
 	constexpr
 	auto operator=(subarray<TT, D, As...>&& other) & -> subarray& {
-		BOOST_MULTI_ASSERT(this->extension() == other.extension());  // NOLINT(cppcoreguidelines-pro-bounds-array-to-pointer-decay,hicpp-no-array-decay) : normal in a constexpr function
+		BOOST_MULTI_ASSERT(this->extensions() == other.extensions());  // NOLINT(cppcoreguidelines-pro-bounds-array-to-pointer-decay,hicpp-no-array-decay) : normal in a constexpr function
 		this->elements() = std::move(other).elements();
 		return *this;
 	}
@@ -2225,13 +2225,13 @@ class subarray : public const_subarray<T, D, ElementPtr, Layout> {
 
 	constexpr auto operator=(subarray const& other) & -> subarray& {
 		if(this == std::addressof(other)) { return *this; }
-		BOOST_MULTI_ASSERT(this->extension() == other.extension());
+		BOOST_MULTI_ASSERT(this->extensions() == other.extensions());
 		this->elements() = other.elements();
 		return *this;
 	}
 	constexpr auto operator=(subarray&& other) & noexcept -> subarray& {  // TODO(correaa) make conditionally noexcept
 		// if(this == std::addressof(other)) { return *this; }
-		BOOST_MULTI_ASSERT(this->extension() == other.extension());
+		BOOST_MULTI_ASSERT(this->extensions() == other.extensions());
 		this->elements() = std::move(other).elements();
 		return *this;
 	}
